@@ -1,3 +1,4 @@
 import Cgm.Lemmas.AuditCmd
 import Cgm.E2E.C11
+import Cgm.E2E.C11h
 #audit_namespace Cg.E2E.C11
